@@ -598,8 +598,8 @@ static void _GD_CPolynomData(DIRFILE *restrict D, void *restrict data,
 #define MULTIPLYC(t) \
   do { \
     for (i = 0; i < n; i++) { \
-      ((t*)A)[2 * i] = (t)(((t*)A)[2 * i] * B[i * spfB / spfA]); \
-      ((t*)A)[2 * i + 1] = (t)(((t*)A)[2 * i + 1] * B[i * spfB / spfA]); \
+      ((t*)A)[2 * i] = (t)(((t*)A)[2 * i] * B[(remB + i * spfB) / spfA]); \
+      ((t*)A)[2 * i + 1] = (t)(((t*)A)[2 * i + 1] * B[(remB + i * spfB) / spfA]); \
     } \
   } while (0)
 #else
@@ -607,13 +607,13 @@ static void _GD_CPolynomData(DIRFILE *restrict D, void *restrict data,
 #endif
 
 #define MULTIPLY(t) \
-  for (i = 0; i < n; i++) ((t*)A)[i] = (t)(((t*)A)[i] * B[i * spfB / spfA])
+  for (i = 0; i < n; i++) ((t*)A)[i] = (t)(((t*)A)[i] * B[(remB + i * spfB) / spfA])
 
 /* MultiplyData: Multiply A by purely real B.  B is unchanged.
 */
 static void _GD_MultiplyData(DIRFILE *restrict D, void *restrict A,
-    unsigned int spfA, const double *B, unsigned int spfB, gd_type_t type,
-    size_t n)
+    unsigned int spfA, const double *B, unsigned int spfB, unsigned int remB,
+    gd_type_t type, size_t n)
 {
   size_t i;
 
@@ -645,7 +645,7 @@ static void _GD_MultiplyData(DIRFILE *restrict D, void *restrict A,
 #define MULTIPLYC(t) \
   do { \
     for (i = 0; i < n; i++) { \
-      const int i2 = 2 * (i * spfB / spfA); \
+      const int i2 = 2 * ((remB + i * spfB) / spfA); \
       const t x = ((t*)A)[2 * i]; \
       const t y = ((t*)A)[2 * i + 1]; \
       ((t*)A)[2 * i] = (t)(x * B[i2] - y * B[i2 + 1]); \
@@ -659,8 +659,8 @@ static void _GD_MultiplyData(DIRFILE *restrict D, void *restrict A,
  * complex due to the way we deal with complex valued derived fields
 */
 static void _GD_CMultiplyData(DIRFILE *restrict D, void *restrict A,
-    unsigned int spfA, GD_DCOMPLEXP(B), unsigned int spfB, gd_type_t type,
-    size_t n)
+    unsigned int spfA, GD_DCOMPLEXP(B), unsigned int spfB, unsigned int remB,
+    gd_type_t type, size_t n)
 {
   size_t i;
 
@@ -680,8 +680,8 @@ static void _GD_CMultiplyData(DIRFILE *restrict D, void *restrict A,
 #define DIVIDEC(t) \
   do { \
     for (i = 0; i < n; i++) { \
-      ((t*)A)[2 * i] = (t)(((t*)A)[2 * i] / B[i * spfB / spfA]); \
-      ((t*)A)[2 * i + 1] = (t)(((t*)A)[2 * i + 1] / B[i * spfB / spfA]); \
+      ((t*)A)[2 * i] = (t)(((t*)A)[2 * i] / B[(remB + i * spfB) / spfA]); \
+      ((t*)A)[2 * i + 1] = (t)(((t*)A)[2 * i + 1] / B[(remB + i * spfB) / spfA]); \
     } \
   } while(0)
 #else
@@ -690,13 +690,13 @@ static void _GD_CMultiplyData(DIRFILE *restrict D, void *restrict A,
 
 #define DIVIDE(t) \
   for (i = 0; i < n; i++) \
-    ((t*)A)[i] = (t)(((t*)A)[i] / B[i * spfB / spfA])
+    ((t*)A)[i] = (t)(((t*)A)[i] / B[(remB + i * spfB) / spfA])
 
 /* DivideData: Divide B by A.  B is unchanged.
 */
 static void _GD_DivideData(DIRFILE *restrict D, void *restrict A,
-    unsigned int spfA, double *restrict B, unsigned int spfB, gd_type_t type,
-    size_t n)
+    unsigned int spfA, double *restrict B, unsigned int spfB,
+    unsigned int remB, gd_type_t type, size_t n)
 {
   size_t i;
 
@@ -728,7 +728,7 @@ static void _GD_DivideData(DIRFILE *restrict D, void *restrict A,
 #define DIVIDEC(t) \
   do { \
     for (i = 0; i < n; i++) { \
-      const int i2 = 2 * (i * spfB / spfA); \
+      const int i2 = 2 * ((remB + i * spfB) / spfA); \
       const t x = ((t*)A)[2 * i]; \
       const t y = ((t*)A)[2 * i + 1]; \
       const double d = B[i2] * B[i2] + B[i2 + 1] * B[i2 + 1]; \
@@ -743,8 +743,8 @@ static void _GD_DivideData(DIRFILE *restrict D, void *restrict A,
  * about A.)
 */
 static void _GD_CDivideData(DIRFILE *restrict D, void *restrict A,
-    unsigned int spfA, GD_DCOMPLEXP(B), unsigned int spfB, gd_type_t type,
-    size_t n)
+    unsigned int spfA, GD_DCOMPLEXP(B), unsigned int spfB, unsigned int remB,
+    gd_type_t type, size_t n)
 {
   size_t i;
 
@@ -762,12 +762,12 @@ static void _GD_CDivideData(DIRFILE *restrict D, void *restrict A,
 
 #define WINDOP(ot,ct,bo,op,tt,z) \
   for (i = 0; i < n; i++) \
-    if (!((bo(((ct*)B)[i * spfB / spfA])) op threshold.tt)) \
+    if (!((bo(((ct*)B)[(remB + i * spfB) / spfA])) op threshold.tt)) \
       ((ot*)A)[i] = (ot)(z)
 
 #define WINDOPC(ot,ct,bo,op,tt,z) \
   for (i = 0; i < n; i++) \
-    if (!((bo(((ct*)B)[i * spfB / spfA])) op threshold.tt)) \
+    if (!((bo(((ct*)B)[(remB + i * spfB) / spfA])) op threshold.tt)) \
       ((ot*)A)[i * 2] = ((ot*)A)[i * 2 + 1] = (ot)(z)
 
 #define WINDOW(t,z) \
@@ -801,8 +801,8 @@ static void _GD_CDivideData(DIRFILE *restrict D, void *restrict A,
 /* WindowData: Zero data in A where the condition is false.  B is unchanged.
 */
 static void _GD_WindowData(DIRFILE *restrict D, void *restrict A,
-    unsigned int spfA, void *restrict B, unsigned int spfB, gd_type_t type,
-    gd_windop_t op, gd_triplet_t threshold, size_t n)
+    unsigned int spfA, void *restrict B, unsigned int spfB, unsigned int remB,
+    gd_type_t type, gd_windop_t op, gd_triplet_t threshold, size_t n)
 {
   size_t i;
   const double NaN = NAN;
@@ -835,7 +835,7 @@ static void _GD_WindowData(DIRFILE *restrict D, void *restrict A,
   do { \
     t last = *(t*)start; \
     for (i = 0; i < n; i++) {\
-      if (B[i * spfB / spfA] == val) \
+      if (B[(remB + i * spfB) / spfA] == val) \
         last = ((t*)A)[i]; \
       else \
         ((t*)A)[i] = last; \
@@ -848,7 +848,7 @@ static void _GD_WindowData(DIRFILE *restrict D, void *restrict A,
     rlast = *(t*)start; \
     ilast = ((t*)start)[1]; \
     for (i = 0; i < n; i++) \
-      if (B[i * spfB / spfA] == val) { \
+      if (B[(remB + i * spfB) / spfA] == val) { \
         rlast = ((t*)A)[i * 2]; \
         ilast = ((t*)A)[i * 2 + 1]; \
       } else { \
@@ -859,8 +859,8 @@ static void _GD_WindowData(DIRFILE *restrict D, void *restrict A,
 
 /* demultiplex data */
 static void _GD_MplexData(DIRFILE *restrict D, void *restrict A,
-    unsigned int spfA, const int *restrict B, unsigned int spfB, gd_type_t type,
-    int val, void *restrict start, size_t n)
+    unsigned int spfA, const int *restrict B, unsigned int spfB,
+    unsigned int remB, gd_type_t type, int val, void *restrict start, size_t n)
 {
   size_t i;
 
@@ -887,13 +887,43 @@ static void _GD_MplexData(DIRFILE *restrict D, void *restrict A,
   dreturnvoid();
 }
 
+/* Rate alignment of a second (third) input.  Sample n of a field of rate spfA
+ * uses sample floor(n * spfB / spfA) of an input of rate spfB (dirfile-format(5)).
+ * _GD_InputStart returns that sample for n = s and stores in *rem the remainder
+ * (s * spfB) mod spfA, so that sample s + i uses input sample
+ * start + (rem + i * spfB) / spfA; _GD_InputCount is the number of input
+ * samples to read for n samples starting there.
+ */
+static off64_t _GD_InputStart(off64_t s, unsigned int spfA, unsigned int spfB,
+    unsigned int *rem)
+{
+  const off64_t num = s * spfB;
+  off64_t q = num / spfA;
+  off64_t r = num % spfA;
+
+  if (r < 0) { /* floor, not truncation, before sample zero */
+    r += spfA;
+    q--;
+  }
+
+  *rem = (unsigned int)r;
+  return q;
+}
+
+static size_t _GD_InputCount(size_t n, unsigned int spfA, unsigned int spfB,
+    unsigned int rem)
+{
+  return (rem + n * spfB + spfA - 1) / spfA;
+}
+
 /* _GD_DoLincom:  Read from a lincom.  Returns number of samples read.
 */
 static size_t _GD_DoLincom(DIRFILE *restrict D, gd_entry_t *restrict E,
     off64_t first_samp, size_t num_samp, gd_type_t return_type,
     void *restrict data_out)
 {
-  unsigned int spf[GD_MAX_LINCOM];
+  /* spf[i]: rate of input i; spf[GD_MAX_LINCOM + i]: its alignment remainder */
+  unsigned int spf[2 * GD_MAX_LINCOM];
   size_t n_read;
   int i;
   void *tmpbuf2 = NULL;
@@ -945,8 +975,10 @@ static size_t _GD_DoLincom(DIRFILE *restrict D, gd_entry_t *restrict E,
     /* calculate the first sample, type and number of samples to read of the
      * second field */
     size_t n_read2;
-    size_t num_samp2 = (int)ceil((double)n_read * spf[1] / spf[0]);
-    off64_t first_samp2 = first_samp * spf[1] / spf[0];
+    off64_t first_samp2 = _GD_InputStart(first_samp, spf[0], spf[1],
+        spf + GD_MAX_LINCOM + 1);
+    size_t num_samp2 = _GD_InputCount(n_read, spf[0], spf[1],
+        spf[GD_MAX_LINCOM + 1]);
 
     /* Allocate a temporary buffer for the next field */
     tmpbuf2 = _GD_Alloc(D, ntype, num_samp2);
@@ -966,14 +998,23 @@ static size_t _GD_DoLincom(DIRFILE *restrict D, gd_entry_t *restrict E,
     }
 
     /* adjust n_read for a short read from field two */
-    if (n_read2 * spf[0] < n_read * spf[1])
-      n_read = n_read2 * spf[0] / spf[1];
+    if ((n_read2 * spf[0] - spf[GD_MAX_LINCOM + 1]) / spf[1] < n_read)
+      n_read = (n_read2 * spf[0] - spf[GD_MAX_LINCOM + 1]) / spf[1];
+
+    /* field two ends before the first sample it would have to supply */
+    if (n_read == 0) {
+      free(tmpbuf2);
+      dreturn("%i", 0);
+      return 0;
+    }
 
     /* Do the same for the third field, if needed */
     if (E->EN(lincom,n_fields) > 2) {
       size_t n_read3;
-      size_t num_samp3 = (int)ceil((double)n_read * spf[2] / spf[0]);
-      off64_t first_samp3 = first_samp * spf[2] / spf[0];
+      off64_t first_samp3 = _GD_InputStart(first_samp, spf[0], spf[2],
+          spf + GD_MAX_LINCOM + 2);
+      size_t num_samp3 = _GD_InputCount(n_read, spf[0], spf[2],
+          spf[GD_MAX_LINCOM + 2]);
 
       tmpbuf3 = _GD_Alloc(D, ntype, num_samp3);
       if (D->error) {
@@ -992,8 +1033,8 @@ static size_t _GD_DoLincom(DIRFILE *restrict D, gd_entry_t *restrict E,
         return 0;
       }
 
-      if (n_read3 * spf[0] < n_read * spf[2])
-        n_read = n_read3 * spf[0] / spf[2];
+      if ((n_read3 * spf[0] - spf[GD_MAX_LINCOM + 2]) / spf[2] < n_read)
+        n_read = (n_read3 * spf[0] - spf[GD_MAX_LINCOM + 2]) / spf[2];
     }
   }
 
@@ -1025,7 +1066,7 @@ static size_t _GD_DoMultiply(DIRFILE *restrict D, gd_entry_t *restrict E,
     void *restrict data_out)
 {
   void *tmpbuf = NULL;
-  unsigned int spf1, spf2;
+  unsigned int spf1, spf2, rem2;
   size_t n_read, n_read2, num_samp2;
   off64_t first_samp2;
   gd_type_t type2;
@@ -1064,8 +1105,8 @@ static size_t _GD_DoMultiply(DIRFILE *restrict D, gd_entry_t *restrict E,
 
   /* calculate the first sample and number of samples to read of the
    * second field */
-  num_samp2 = (int)ceil((double)n_read * spf2 / spf1);
-  first_samp2 = first_samp * spf2 / spf1;
+  first_samp2 = _GD_InputStart(first_samp, spf1, spf2, &rem2);
+  num_samp2 = _GD_InputCount(n_read, spf1, spf2, rem2);
 
   /* find the native type of the second field */
   type2 = (_GD_NativeType(D, E->e->entry[1], E->e->repr[1]) & GD_COMPLEX) ?
@@ -1098,13 +1139,16 @@ static size_t _GD_DoMultiply(DIRFILE *restrict D, gd_entry_t *restrict E,
     return 0;
   }
 
-  if (n_read2 * spf1 < n_read * spf2)
-    n_read = n_read2 * spf1 / spf2;
+  /* samples of this field below the end of the second one */
+  if ((n_read2 * spf1 - rem2) / spf2 < n_read)
+    n_read = (n_read2 * spf1 - rem2) / spf2;
 
   if (type2 & GD_COMPLEX)
-    _GD_CMultiplyData(D, data_out, spf1, tmpbuf, spf2, return_type, n_read);
+    _GD_CMultiplyData(D, data_out, spf1, tmpbuf, spf2, rem2, return_type,
+        n_read);
   else
-    _GD_MultiplyData(D, data_out, spf1, tmpbuf, spf2, return_type, n_read);
+    _GD_MultiplyData(D, data_out, spf1, tmpbuf, spf2, rem2, return_type,
+        n_read);
 
   free(tmpbuf);
 
@@ -1155,7 +1199,7 @@ static size_t _GD_DoDivide(DIRFILE *restrict D, gd_entry_t *restrict E,
     void *restrict data_out)
 {
   void *tmpbuf = NULL;
-  unsigned int spf1, spf2;
+  unsigned int spf1, spf2, rem2;
   size_t n_read, n_read2, num_samp2;
   off64_t first_samp2;
   gd_type_t type2;
@@ -1195,8 +1239,8 @@ static size_t _GD_DoDivide(DIRFILE *restrict D, gd_entry_t *restrict E,
 
   /* calculate the first sample and number of samples to read of the
    * second field */
-  num_samp2 = (int)ceil((double)n_read * spf2 / spf1);
-  first_samp2 = first_samp * spf2 / spf1;
+  first_samp2 = _GD_InputStart(first_samp, spf1, spf2, &rem2);
+  num_samp2 = _GD_InputCount(n_read, spf1, spf2, rem2);
 
   /* find the native type of the second field */
   type2 = (_GD_NativeType(D, E->e->entry[1], E->e->repr[1]) & GD_COMPLEX) ?
@@ -1229,15 +1273,16 @@ static size_t _GD_DoDivide(DIRFILE *restrict D, gd_entry_t *restrict E,
     return 0;
   }
 
-  if (n_read2 * spf1 < n_read * spf2)
-    n_read = n_read2 * spf1 / spf2;
+  /* samples of this field below the end of the second one */
+  if ((n_read2 * spf1 - rem2) / spf2 < n_read)
+    n_read = (n_read2 * spf1 - rem2) / spf2;
 
   if (type2 & GD_COMPLEX)
-    _GD_CDivideData(D, data_out, spf1, (GD_DCOMPLEXP_t)tmpbuf, spf2,
+    _GD_CDivideData(D, data_out, spf1, (GD_DCOMPLEXP_t)tmpbuf, spf2, rem2,
         return_type, n_read);
   else
-    _GD_DivideData(D, data_out, spf1, (double *)tmpbuf, spf2, return_type,
-        n_read);
+    _GD_DivideData(D, data_out, spf1, (double *)tmpbuf, spf2, rem2,
+        return_type, n_read);
 
   free(tmpbuf);
 
@@ -1398,7 +1443,7 @@ static size_t _GD_DoWindow(DIRFILE *restrict D, gd_entry_t *restrict E,
     void *restrict data_out)
 {
   void *tmpbuf = NULL;
-  unsigned int spf1, spf2;
+  unsigned int spf1, spf2, rem2;
   size_t n_read, n_read2, num_samp2;
   off64_t first_samp2;
   gd_type_t type2;
@@ -1437,8 +1482,8 @@ static size_t _GD_DoWindow(DIRFILE *restrict D, gd_entry_t *restrict E,
 
   /* calculate the first sample and number of samples to read of the
    * check field */
-  num_samp2 = (int)ceil((double)n_read * spf2 / spf1);
-  first_samp2 = first_samp * spf2 / spf1;
+  first_samp2 = _GD_InputStart(first_samp, spf1, spf2, &rem2);
+  num_samp2 = _GD_InputCount(n_read, spf1, spf2, rem2);
 
   switch(E->EN(window,windop)) {
     case GD_WINDOP_EQ:
@@ -1481,10 +1526,11 @@ static size_t _GD_DoWindow(DIRFILE *restrict D, gd_entry_t *restrict E,
     return 0;
   }
 
-  if (n_read2 * spf1 < n_read * spf2)
-    n_read = n_read2 * spf1 / spf2;
+  /* samples of this field below the end of the second one */
+  if ((n_read2 * spf1 - rem2) / spf2 < n_read)
+    n_read = (n_read2 * spf1 - rem2) / spf2;
 
-  _GD_WindowData(D, data_out, spf1, tmpbuf, spf2, return_type,
+  _GD_WindowData(D, data_out, spf1, tmpbuf, spf2, rem2, return_type,
       E->EN(window,windop), E->EN(window,threshold), n_read);
 
   free(tmpbuf);
@@ -1501,7 +1547,7 @@ static size_t _GD_DoMplex(DIRFILE *restrict D, gd_entry_t *restrict E,
 {
   char start[16];
   int *tmpbuf = NULL;
-  unsigned int spf1, spf2;
+  unsigned int spf1, spf2, rem2;
   size_t n_read, n_read2, num_samp2;
   const size_t size = GD_SIZE(return_type);
   off64_t first_samp2;
@@ -1545,8 +1591,8 @@ static size_t _GD_DoMplex(DIRFILE *restrict D, gd_entry_t *restrict E,
 
   /* calculate the first sample and number of samples to read of the
    * count field */
-  num_samp2 = (int)ceil((double)n_read * spf2 / spf1);
-  first_samp2 = first_samp * spf2 / spf1;
+  first_samp2 = _GD_InputStart(first_samp, spf1, spf2, &rem2);
+  num_samp2 = _GD_InputCount(n_read, spf1, spf2, rem2);
 
   /* Allocate a temporary buffer for the count field */
   tmpbuf = _GD_Alloc(D, GD_INT_TYPE, num_samp2);
@@ -1657,10 +1703,11 @@ static size_t _GD_DoMplex(DIRFILE *restrict D, gd_entry_t *restrict E,
     _GD_Seek(D, E->e->entry[1], first_samp2 + n_read2, GD_FILE_READ);
   }
 
-  if (n_read2 * spf1 < n_read * spf2)
-    n_read = n_read2 * spf1 / spf2;
+  /* samples of this field below the end of the second one */
+  if ((n_read2 * spf1 - rem2) / spf2 < n_read)
+    n_read = (n_read2 * spf1 - rem2) / spf2;
 
-  _GD_MplexData(D, data_out, spf1, tmpbuf, spf2, return_type,
+  _GD_MplexData(D, data_out, spf1, tmpbuf, spf2, rem2, return_type,
       E->EN(mplex,count_val),  start, n_read);
 
   /* Cache the last sample read */
